@@ -239,6 +239,52 @@ def _task_streams(task):
     return t
 
 
+def _touched_run(pkmod, data, k, touch, when, n_expected):
+    """A complete stream in a file object read with the default (whole-file) read: after the first / the last packet the caller closes or
+    rewinds its handle.  Everything is in the framer's hands by then, so the items stay the consecutive packets of the input and it stops."""
+    src = io.BytesIO(data)
+    g = pkmod.ccsds_generator(src, skip_header_bytes=k)
+    got = []
+    end = "stop"
+    try:
+        for i in range(n_expected + 3):
+            if i == (1 if when == "first" else n_expected):
+                src.close() if touch == "close" else src.seek(0)
+            got.append(bytes(next(g)))
+        end = "no end within the horizon"
+    except StopIteration:
+        pass
+    except Exception as e:  # noqa: BLE001
+        end = f"raised {type(e).__name__}"
+    return got, end
+
+
+def _task_touched(task):
+    from mc.checks.c02 import _pkmod_cached
+    t = Tally()
+    pal = framing.palette_packets()
+    for seq, k in task["items"]:
+        pkts = [pal[i] for i in seq]
+        stream = framing.build_stream(pkts, k)
+        for thr in (None, 0, 17):
+            pkmod = _pkmod_cached(thr)
+            if pkmod is None:
+                continue
+            for touch in ("close", "rewind"):
+                for when in ("first", "last"):
+                    with case_alarm(20):
+                        got, end = _touched_run(pkmod, stream, k, touch, when, len(pkts))
+                    t.evals += 1
+                    why = _judge(got, end, stream, k)
+                    t.outcomes[f"touched:{'ok' if why is None else 'bad'}"] += 1
+                    if why:
+                        t.violation({"kind": "termination" if end != "stop" else "framing", "source": f"file-object-{touch}d-by-caller-after-{when}-packet", "end": end},
+                                    {"touched": True, "seq": list(seq), "k": k, "threshold": thr, "touch": touch, "when": when},
+                                    observed={"n_items": len(got), "end": end}, note=why)
+        t.nontrivial += 1
+    return t
+
+
 def _task_arbitrary(task):
     t = Tally()
     with owned_clock():
@@ -406,6 +452,7 @@ def run(ctx):
     tally.merge(fan_out(_task_arbitrary, atasks, jobs=ctx.jobs, seed=ctx.seed))
     tally.merge(fan_out(_task_big, [{"tail": x} for x in ("truncated", "stray", "complete-small")], jobs=3, mem_gib=None))
     tally.merge(fan_out(_task_handles, [{"n": n, "k": k, "work": ctx.work} for n in (3, 40, 300, 400) for k in (0, 4)], jobs=8, seed=ctx.seed))
+    tally.merge(fan_out(_task_touched, [{"items": ch} for ch in chunked([(seq, k) for seq, k in items if len(seq) <= 3], 40)], jobs=ctx.jobs, seed=ctx.seed))
     _real_socketpair_smoke(tally)
     coverage = {
         "states": tally.states,
@@ -413,7 +460,7 @@ def run(ctx):
         "programs": tally.programs,
         "exhaustive": True,
         "bound": (f"every sequence of 1..{max_len} palette packets x prefix lengths {ks} cut at EVERY byte offset, for bytes, "
-                  "BytesIO with every read size (and with show_progress=True), a gzip file object and a BufferedReader over a 3-bytes-per-read raw stream (read sizes None, 7), read/write file handles as a producer leaves them (w+b, TemporaryFile, r+b appended, the generator object created before the writes / before the caller reads from the handle; 3..400 records written one write() each and not flushed; whole and cut by 1 or 9 bytes), and a scripted socket where the peer may close at every recv() choice point (also with show_progress=True, and as a message-preserving socket whose messages fit the read size, on the streams of <= 2 packets) "
+                  "BytesIO with every read size (and with show_progress=True), a gzip file object and a BufferedReader over a 3-bytes-per-read raw stream (read sizes None, 7), read/write file handles as a producer leaves them (w+b, TemporaryFile, r+b appended, the generator object created before the writes / before the caller reads from the handle; 3..400 records written one write() each and not flushed; whole and cut by 1 or 9 bytes), file objects holding complete streams that the caller closes / rewinds after the first / the last packet (default read size, buffer-trim literal as shipped and rewritten to 0 and 17), and a scripted socket where the peer may close at every recv() choice point (also with show_progress=True, and as a message-preserving socket whose messages fit the read size, on the streams of <= 2 packets) "
                   "under every fragmentation; all byte strings of length <= 2; all strings of length <= "
                   f"{8 if ctx.quick else 9} over {{00,01,FF}}; both ccsds_generator and packet_generator(header-only definition)"),
         "rule": ("one evaluation = one complete execution of a generator over one (stream, cut point / close point, source, read size, "
@@ -426,6 +473,12 @@ def run(ctx):
 
 
 def replay(case):
+    if case.get("touched"):
+        t = _task_touched({"items": [(tuple(case["seq"]), case["k"])]})
+        for v in t.violations:
+            if all(v["case"].get(x) == case.get(x) for x in ("threshold", "touch", "when")):
+                return v
+        return None
     data = bytes.fromhex(case["data"])
     t = Tally()
     with owned_clock():
